@@ -139,6 +139,17 @@ where
             other => panic!("dv not available for shape {other}"),
         };
     }
+    if kind.starts_with("lu;") {
+        return match spec.shape.as_str() {
+            "Real" => cases::run_lu::<F, Real>(kind, pres),
+            "Dual" => cases::run_lu::<F, DualS<Real>>(kind, pres),
+            "Dual2" => cases::run_lu::<F, Dual2S<Real>>(kind, pres),
+            "HyperDual" => cases::run_lu::<F, HyperS<Real>>(kind, pres),
+            "Dual3" => cases::run_lu::<F, Dual3S<Real>>(kind, pres),
+            "DualVec2" => cases::run_lu::<F, DualVecS<Real, C<2>>>(kind, pres),
+            other => panic!("lu not available for shape {other}"),
+        };
+    }
     if kind == "cmp" {
         return match spec.shape.as_str() {
             "Real" => cases::run_cmp::<F, Real>(pres),
